@@ -526,6 +526,7 @@ func c18OpsTerm(e *c18Emit, ops []c18Op) string {
 // ---------------------------------------------------------------------------------------------
 // hazards: trigger conditions of the known failing classes, computed from the input only
 
+// spellings the gzip layer used to recognise; the others keep their own input class
 var c18Listed = map[string]bool{"gzip": true, "compress": true, "deflate": true, "br": true}
 
 // rfcOffersGzip is only used to name the input class (the verdict is Coq's offers_gzip).
@@ -601,7 +602,7 @@ func c18Hazard(in *c18In) string {
 				}
 			}
 		}
-		if ce != "" && !c18Listed[ce] {
+		if ce != "" && ce != "identity" && !c18Listed[ce] {
 			if ce == "zstd" {
 				return "already-encoded:zstd"
 			}
@@ -902,7 +903,7 @@ func c18GenScript(r *Rand, cfgs []c18Cfg, hazard string) ([]c18Op, int) {
 	} else if hazard == "already-encoded:unlisted-spelling" {
 		ce = r.Pick([]string{"x-gzip", "GZIP", "br, gzip", "Br"})
 	} else if r.Chance(25) {
-		ce = r.Pick([]string{"gzip", "br", "deflate", "compress"})
+		ce = r.Pick([]string{"gzip", "br", "deflate", "compress", "zstd", "identity"})
 	}
 	switch strings.ToLower(strings.TrimSpace(ce)) {
 	case "gzip", "x-gzip":
@@ -1108,7 +1109,8 @@ func c18Gen(r *Rand, tier string) []interface{} {
 }
 
 // ---------------------------------------------------------------------------------------------
-// translator: skip list, default extensions, sibling priority from the Go AST
+// translator: default extensions, sibling priority from the Go AST
+// (SkipCompressedFilter has no table any more: every Content-Encoding other than identity is left alone)
 
 func c18StringLit(e ast.Expr) (string, bool) {
 	bl, ok := e.(*ast.BasicLit)
@@ -1120,48 +1122,6 @@ func c18StringLit(e ast.Expr) (string, bool) {
 }
 
 func c18GenCoq(repo string) (string, error) {
-	// SkipCompressedFilter.ShouldCompress: the case clause of the switch that returns false
-	_, f, err := parseGo(filepath.Join(repo, "caskethttp/gzip/responsefilter.go"))
-	if err != nil {
-		return "", err
-	}
-	skip := []string{}
-	foundSkip := false
-	for _, d := range f.Decls {
-		fd, ok := d.(*ast.FuncDecl)
-		if !ok || fd.Name.Name != "ShouldCompress" || fd.Recv == nil || len(fd.Recv.List) != 1 {
-			continue
-		}
-		if id, ok := fd.Recv.List[0].Type.(*ast.Ident); !ok || id.Name != "SkipCompressedFilter" {
-			continue
-		}
-		// the method exists; a switch without any `return false` clause skips nothing
-		foundSkip = true
-		ast.Inspect(fd.Body, func(n ast.Node) bool {
-			cc, ok := n.(*ast.CaseClause)
-			if !ok || len(cc.List) == 0 || len(cc.Body) != 1 {
-				return true
-			}
-			ret, ok := cc.Body[0].(*ast.ReturnStmt)
-			if !ok || len(ret.Results) != 1 {
-				return true
-			}
-			if id, ok := ret.Results[0].(*ast.Ident); !ok || id.Name != "false" {
-				return true
-			}
-			for _, e := range cc.List {
-				s, ok := c18StringLit(e)
-				if !ok {
-					return true
-				}
-				skip = append(skip, s)
-			}
-			return true
-		})
-	}
-	if !foundSkip {
-		return "", fmt.Errorf("method SkipCompressedFilter.ShouldCompress not found in responsefilter.go")
-	}
 	// defaultExtensions
 	_, f2, err := parseGo(filepath.Join(repo, "caskethttp/gzip/requestfilter.go"))
 	if err != nil {
@@ -1233,9 +1193,7 @@ func c18GenCoq(repo string) (string, error) {
 	for _, p := range prio {
 		ps = append(ps, cPair(cStr(p[0]), cStr(p[1])))
 	}
-	return "(* gzip.SkipCompressedFilter: Content-Encoding values that are left alone *)\n" +
-		"Definition gen_c18_skip : list bytes := " + cStrList(skip) + ".\n" +
-		"(* gzip.defaultExtensions *)\n" +
+	return "(* gzip.defaultExtensions *)\n" +
 		"Definition gen_c18_default_exts : list bytes := " + cStrList(dexts) + ".\n" +
 		"(* staticfiles.staticEncodingPriority: (coding, file extension) *)\n" +
 		"Definition gen_c18_static_priority : list (bytes * bytes) := " + cList(ps) + ".\n", nil
